@@ -179,7 +179,7 @@ pub(crate) mod kani_verif {
     /// Contract of ReferenceImplPrivateKey::increment as an executable stub (used by callers' harnesses: hss_sign_core).
     /// It is exactly the statement check_outer_inc proves about the real body: counter < last => counter + 1 and nothing
     /// else changes; otherwise the wiped key (counter 0, parameter bytes 0xff, seed all zero).
-    pub fn contract_outer_increment<HH: HashChain>(this: &mut ReferenceImplPrivateKey<HH>, hss_private_key: &HssPrivateKey<HH>) {
+    pub fn contract_outer_increment<H: HashChain>(this: &mut ReferenceImplPrivateKey<H>, hss_private_key: &HssPrivateKey<H>) {
         let mut hs = [0u32; MAX_ALLOWED_HSS_LEVELS];
         let n = hss_private_key.private_key.len();
         let mut i = 0;
@@ -345,6 +345,9 @@ pub(crate) mod kani_verif {
         let mut i = 0;
         while i < L {
             wc[i] = any_lmots_code();
+            // within the limits of this build (no restriction in the default build)
+            kani::assume(_hs[i] as usize <= crate::constants::TREE_HEIGHTS[i]);
+            kani::assume(spec_w_of_lmots_code(wc[i]).unwrap() as usize >= crate::constants::WINTERNITZ_PARAMETERS[i]);
             i += 1;
         }
         let params = param_list::<HH>(&codes, &wc);
@@ -379,4 +382,14 @@ pub(crate) mod kani_verif {
     rec_harness!(c08_blob_l3, check_blob::<3>(), 36);
     // @h name=c08_blob_l8 props=C08,C14 tier=thorough kind=proved cfg=default funcs=ReferenceImplPrivateKey::generate;ReferenceImplPrivateKey::to_binary_representation;CompressedParameterSet::from;CompressedParameterSet::to contract="same, 8 levels"
     rec_harness!(c08_blob_l8, check_blob::<8>(), 36);
+
+    // ---- C14: the same blob contract under reduced builds (=> same bytes as the default build, key stays loadable)
+    // @h name=c14_blob_l1_L2w8 props=C14 tier=quick kind=proved cfg=L2w8 funcs=ReferenceImplPrivateKey::to_binary_representation;ReferenceImplPrivateKey::from_binary_representation;CompressedParameterSet::to contract="2-level build: blob of a 1-level key == be64(0)||param byte||0xff x7||seed (identical to the default build), parses back"
+    rec_harness!(c14_blob_l1_L2w8, check_blob::<1>(), 36);
+    // @h name=c14_blob_l2_L2w8 props=C14 tier=quick kind=proved cfg=L2w8 funcs=ReferenceImplPrivateKey::to_binary_representation;ReferenceImplPrivateKey::from_binary_representation;CompressedParameterSet::to contract="2-level build: 2-level key"
+    rec_harness!(c14_blob_l2_L2w8, check_blob::<2>(), 36);
+    // @h name=c14_blob_l1_L1 props=C14 tier=thorough kind=proved cfg=L1 funcs=ReferenceImplPrivateKey::to_binary_representation;ReferenceImplPrivateKey::from_binary_representation;CompressedParameterSet::to contract="1-level build: 1-level key"
+    rec_harness!(c14_blob_l1_L1, check_blob::<1>(), 36);
+    // @h name=c14_blob_l2_L2small props=C14 tier=thorough kind=proved cfg=L2small funcs=ReferenceImplPrivateKey::to_binary_representation;ReferenceImplPrivateKey::from_binary_representation;CompressedParameterSet::to contract="build with limits heights (10,5), W (4,8): 2-level keys within the limits"
+    rec_harness!(c14_blob_l2_L2small, check_blob::<2>(), 36);
 }
